@@ -105,11 +105,9 @@ func c15r2(c *Ctx) {
 					switch {
 					case strings.HasPrefix(vt, "Bytes(bigU("):
 						got = "SetUint64(n).Bytes()"
-					case strings.Contains(vt, "ToBytes"):
-						got = "flag bytes"
 					default:
-						// a call returning flag bytes: (*ESDTGlobalMetadata).ToBytes
-						if cv, ok := v.(*ssa.Call); ok && cv.Call.StaticCallee() != nil && cv.Call.StaticCallee().Name() == "ToBytes" {
+						// a module function that allocates bytes and sets flag bits in them (the metadata encoders)
+						if cv, ok := v.(*ssa.Call); ok && writesFlagBytes(c.P, cv.Call.StaticCallee(), 0) {
 							got = "flag bytes"
 						} else {
 							got = vt
@@ -181,8 +179,12 @@ func readSink(e *Env, v ssa.Value, depth int) string {
 			if bigMethod(u) == "SetBytes" {
 				return "SetBytes"
 			}
-			if sc := cc.StaticCallee(); sc != nil && strings.Contains(sc.Name(), "MetadataFromBytes") {
-				return "flag bytes"
+			if sc := cc.StaticCallee(); sc != nil {
+				for i, a := range cc.Args {
+					if a == v && readsFlagBits(e.P, sc, i, 0) {
+						return "flag bytes" // handed to a module function that tests bits of it (the metadata decoders)
+					}
+				}
 			}
 			if CalleeName(u) == "bytes.Equal" {
 				out = "compare"
@@ -385,7 +387,6 @@ func c15r5(c *Ctx) {
 		c.Anchor(rule, "the append of the create role to a role list")
 	}
 }
-
 
 // c15r6 / c15r7: the counter held with the create role never falls below an issued nonce (hand-over rules of C07), and no
 // user-chosen write can plant an undecodable or ill-formed protocol entry (SaveKeyValue's key-space guard, C03-R6).
